@@ -28,19 +28,56 @@ def main():
         if not sp:
             raise TranslateError(f"{SRC}: entry {h} has no spelling (alphabets[0] would panic)")
         rows.append((h, k, sp[0]))
-    # expand_roma / to_roma_sequence / convert shapes (the model Kana/KanaAlpha.v implements these)
-    body = norm(block_after(src, r"pub\(crate\) fn expand_roma\(&self, c: &str\) -> Option<\(String, usize\)>\s*\{", "expand_roma"))
-    want = norm("""let mut ret = c.to_string(); let mut sokuon_count = 0;
+    # expand_roma / spell_sokuon / expand_lonely_sokuon / to_roma_sequence shapes (the model Kana/KanaAlpha.v implements these)
+    def pinned(text, header, what, want):
+        body = norm(block_after(text, header, what))
+        if body != norm(want):
+            raise TranslateError(f"{what} has an unexpected shape: {body!r}")
+    pinned(src, r"pub\(crate\) fn expand_roma\(&self, c: &str\) -> Option<\(String, usize\)>\s*\{", f"{SRC}: expand_roma", """
+        let mut ret = c.to_string(); let mut sokuon_count = 0;
         while Conversion::is_sokuon(&ret) { sokuon_count += 1; ret = ret.chars().skip(1).collect(); }
         if ret.starts_with(&self.hiragana) || ret.starts_with(&self.katakana) {
             let size = self.hiragana.chars().collect::<Vec<_>>().len();
             let mut alphabet = self.alphabets[0].clone();
-            if sokuon_count > 0 { let tmp = alphabet.chars().take(1).collect::<String>(); alphabet = format!("{}{}", tmp.repeat(sokuon_count), alphabet) }
+            if sokuon_count > 0 { alphabet = format!( "{}{}", spell_sokuon(alphabet.chars().next(), sokuon_count), alphabet ) }
             Some((alphabet, size + sokuon_count)) } else { None }""")
-    shape = "pinned" if body == want else "other"
+    pinned(src, r"fn is_sokuon\(c: &str\) -> bool\s*\{", f"{SRC}: is_sokuon", """
+        if let Some(v) = c.chars().position(|v| v == 'っ' || v == 'ッ') { v == 0 } else { false }""")
+    pinned(src, r"pub\(crate\) fn spell_sokuon\(next: Option<char>, count: usize\) -> String\s*\{", f"{SRC}: spell_sokuon", """
+        match next.map(|c| c.to_ascii_lowercase()) {
+            Some(c) if DOUBLING_CONSONANTS.contains(&c) => c.to_string().repeat(count),
+            _ => SOKUON_SPELLING.repeat(count), }""")
+    pinned(src, r"pub\(crate\) fn expand_lonely_sokuon\(s: &str\) -> Option<\(String, usize\)>\s*\{", f"{SRC}: expand_lonely_sokuon", """
+        let count = s.chars().take_while(|c| *c == 'っ' || *c == 'ッ').count();
+        if count == 0 { return None; }
+        Some((spell_sokuon(s.chars().nth(count), count), count))""")
+    m = re.search(r"const DOUBLING_CONSONANTS: \[char; (\d+)\] = \[(.*?)\];", src, re.S)
+    if not m:
+        raise TranslateError(f"{SRC}: DOUBLING_CONSONANTS not found")
+    doubling = re.findall(r"'(.)'", m.group(2))
+    if len(doubling) != int(m.group(1)):
+        raise TranslateError(f"{SRC}: DOUBLING_CONSONANTS length")
+    m = re.search(r'const SOKUON_SPELLING: &str = "([^"]*)";', src)
+    if not m:
+        raise TranslateError(f"{SRC}: SOKUON_SPELLING not found")
+    sokuon_spelling = m.group(1)
+    lsrc = cut_tests(strip_comments(read(LSRC)))
+    pinned(lsrc, r"fn to_roma_sequence\(s: &str\) -> \(String, String\)\s*\{", f"{LSRC}: to_roma_sequence", """
+        let conversions = get_conversions();
+        let mut conversions = conversions .into_iter() .filter_map(|conv| conv.expand_roma(s)) .collect::<Vec<_>>();
+        conversions.sort_by(|(_, s1), (_, s2)| s1.cmp(s2)); conversions.reverse();
+        if let Some((v, len)) = conversions.get(0) { let rest = s.chars().skip(*len).collect(); (v.clone(), rest) }
+        else if let Some((v, len)) = conversion::expand_lonely_sokuon(s) { (v, s.chars().skip(len).collect()) }
+        else { let v = s.to_string(); let ret: String = v.chars().take(1).collect(); let rest = v.chars().skip(1).collect(); (ret.to_lowercase(), rest) }""")
+    pinned(lsrc, r"pub fn convert\(str: &str\) -> String\s*\{", f"{LSRC}: convert", """
+        let mut normalized = nfc_normalize(str); let mut ret = String::new();
+        while !normalized.is_empty() { let (v, rest) = to_roma_sequence(&normalized); normalized = rest; ret.push_str(&v); }
+        ret""")
+    shape = "pinned"
     out = ["From Chokan Require Import Base.Str.", "Local Open Scope N_scope.", ""]
     out.append("Definition ka_table : list (str * str * str) :=\n  [ " + ";\n    ".join(f"({cstr(h)}, {cstr(k)}, {cstr(a)})" for h, k, a in rows) + " ].\n")
-    out.append(f"(* expand_roma shape: {shape} *)")
+    out.append("Definition ka_doubling : list N := [" + "; ".join(str(ord(c)) for c in doubling) + "].")
+    out.append(f"Definition ka_sokuon_spelling : str := {cstr(sokuon_spelling)}.")
     write_gen("KanaTable", "\n".join(out) + "\n", [SRC])
     return shape
 
